@@ -15,7 +15,7 @@ use super::StarknetModuleKind;
 use super::generation_data::{ComponentGenerationData, StarknetModuleCommonGenerationData};
 use crate::plugin::consts::{
     COMPONENT_STATE_NAME, EMBEDDABLE_AS_ATTR, EVENT_TYPE_NAME, GENERIC_COMPONENT_STATE_NAME,
-    GENERIC_CONTRACT_STATE_NAME, HAS_COMPONENT_TRAIT, STORAGE_STRUCT_NAME,
+    GENERIC_CONTRACT_STATE_NAME, HAS_COMPONENT_TRAIT, STORAGE_ATTR, STORAGE_STRUCT_NAME,
 };
 use crate::plugin::storage::handle_storage_struct;
 use crate::plugin::utils::{AstPathExtract, GenericParamExtract, ParamEx};
@@ -86,8 +86,11 @@ fn handle_component_item<'db>(
         ast::ModuleItem::Impl(item_impl) => {
             handle_component_impl(db, diagnostics, item_impl, metadata, data);
         }
+        // An additional, non-annotated, `Storage` struct is left for the duplicate definition
+        // diagnostic.
         ast::ModuleItem::Struct(item_struct)
-            if item_struct.name(db).text(db).long(db) == STORAGE_STRUCT_NAME =>
+            if item_struct.name(db).text(db).long(db) == STORAGE_STRUCT_NAME
+                && item_struct.has_attr(db, STORAGE_ATTR) =>
         {
             handle_storage_struct(
                 db,
